@@ -106,6 +106,7 @@ def zDelete (db : DB) (k : Bytes) (es : List Bytes) (now : Int) : Res :=
 /-- `DeleteWith(key).ByRank(a, b).Run()` -/
 def zDeleteRank (db : DB) (k : Bytes) (a b : Int) (now : Int) : Res :=
   if a < 0 || b < 0 then .ok (.int 0) db
+  else if a > b then .ok (.int 0) db          -- an inverted range selects nothing
   else
     let victims := (sqlLimit a (b - a + 1) (zLiveRows db k now)).map (·.elem)
     zDeleteWhere db k victims now
@@ -193,7 +194,7 @@ def zCombine (db : DB) (ks : List Bytes) (agg : Agg) (inter : Bool) (now : Int) 
   let elems := dedup (rows.map (·.elem))
   let groups := elems.filterMap (fun e =>
     let g := rows.filter (fun r => r.elem == e)
-    if inter && !((g.length : Int) == ks.length) then none
+    if inter && !((g.length : Int) == (dedup ks).length) then none      -- `countDistinct(keys)`
     else some (e, aggScores agg (g.map (·.score))))
   sortBy (fun a b => match a.2, b.2 with
     | some x, some y => Score.lt x y || (x == y && bytesLt a.1 b.1)
